@@ -122,6 +122,12 @@ func main() {
 		_ = fs.Parse(os.Args[2:])
 		oracleJSON = *asJSON
 		os.Exit(runOracle(*prop, *seed, *n, *maxFail))
+	case "race":
+		fs := flag.NewFlagSet("race", flag.ExitOnError)
+		seed := fs.Uint64("seed", 1, "")
+		n := fs.Int("n", 200, "")
+		_ = fs.Parse(os.Args[2:])
+		os.Exit(runRace(*seed, *n))
 	case "judge":
 		fs := flag.NewFlagSet("judge", flag.ExitOnError)
 		prop := fs.String("prop", "C01", "")
